@@ -16,6 +16,7 @@ import Driver.SseClient
 import Driver.Resource
 import Driver.SqliteConn
 import Driver.StateStore
+import Driver.StateStoreHist
 import Driver.Timers
 import Driver.Journal
 import Driver.Replay
@@ -45,6 +46,7 @@ def main (args : List String) : IO UInt32 := do
   | ["resource"] => Drv.loop stdin Drv.Resource.step {}; return 0
   | ["sqliteconn"] => Drv.loop stdin Drv.SqliteConn.step {}; return 0
   | ["statestore"] => Drv.loop stdin Drv.StateStore.step {}; return 0
+  | ["statestorehist"] => Drv.loop stdin Drv.StateStoreHist.step {}; return 0
   | ["timers"] => Drv.loop stdin Drv.Timers.step {}; return 0
   | ["journal"] => Drv.loop stdin Drv.Journal.step {}; return 0
   | ["replay"] => Drv.loop stdin Drv.Replay.step {}; return 0
